@@ -103,7 +103,7 @@ func c19(tier string) []*explore.Scenario {
 		out = append(out, c19Channel(cp, bound))
 	}
 	out = append(out, c19ChannelCtx(), c19HTTPShapes(), c19HTTPDuplex(), c19HTTPCtx(), c19HTTPWriteCtx(), c19HTTPRaw())
-	for _, pending := range []string{"sender", "reader", "both", "none"} {
+	for _, pending := range []string{"sender", "reader", "both", "none", "reader-after-abandoned-read"} {
 		out = append(out, c19HTTPIdle(pending, bound))
 	}
 	out = append(out, c19WebSocket(tier == "thorough"))
@@ -565,6 +565,31 @@ func c19HTTPIdle(pending string, bound int) *explore.Scenario {
 			var rgot *env.Rpc
 			if pending == "sender" || pending == "both" {
 				vsched.GoNamed("poster", func() { code = post(goh, msg(2)) })
+			}
+			if pending == "reader-after-abandoned-read" {
+				// three minutes in, a reader gives up (its context ends); no envelope moved, so
+				// the connection is as idle as before and still times out at four minutes
+				clk.Advance(3 * time.Minute)
+				vsched.Quiesce()
+				cctx, ccancel := context.WithCancel(context.Background())
+				adone := false
+				vsched.GoNamed("abandoning-reader", func() { conn.Read(cctx); adone = true })
+				vsched.Quiesce()
+				ccancel()
+				vsched.Quiesce()
+				if !adone {
+					vsched.Fail(fam+"|harness", "the abandoned read did not return")
+				}
+				vsched.GoNamed("reader", func() { rgot, rerr = conn.Read(context.Background()); rdone = true })
+				vsched.Quiesce()
+				clk.Advance(2 * time.Minute)
+				vsched.Quiesce()
+				if !rdone {
+					vsched.Fail(fam+"|reader-not-failed", "no envelope for 5 minutes (timeout 4): a reader gave up at minute 3, and the reader pending since then is still blocked - giving up on a read must not count as activity")
+				}
+				goh.Cancel()
+				vsched.Quiesce()
+				return
 			}
 			if pending == "reader" || pending == "both" {
 				vsched.GoNamed("reader", func() { rgot, rerr = conn.Read(context.Background()); rdone = true })
